@@ -19,6 +19,8 @@ use crate::exec::{Action, Body, ExecCfg, Execution, RunResult};
 pub enum DevKind {
     Swap(u8),
     Starve(Action),
+    /// poll a party that has not been woken (spurious wake-up)
+    Spurious(u8),
 }
 
 #[derive(Clone, Copy, Debug, PartialEq, Eq, Serialize, Deserialize)]
@@ -31,6 +33,8 @@ pub struct StepInfo {
     pub enabled: Vec<Action>,
     pub starved: Vec<Action>,
     pub key: u128,
+    /// unfinished parties that are not woken at this point
+    pub idle: Vec<u8>,
 }
 
 pub struct Explored<T> {
@@ -57,10 +61,12 @@ pub fn run_schedule<T: Send + 'static>(cfg: &ExecCfg, body: Body<T>, devs: &[Dev
                 di += 1;
             }
             if step >= record_from {
+                let idle: Vec<u8> = (0..ex.n as u8).filter(|p| ex.outcomes[*p as usize].is_none() && !en.contains(&Action::Run(*p))).collect();
                 steps.push(StepInfo {
                     enabled: en.to_vec(),
                     starved: starved.clone(),
                     key: ex.state_key() ^ starved_hash(&starved),
+                    idle,
                 });
             }
             if let Some(DevKind::Starve(a)) = kind
@@ -69,6 +75,7 @@ pub fn run_schedule<T: Send + 'static>(cfg: &ExecCfg, body: Body<T>, devs: &[Dev
                 starved.push(a);
             }
             let choice = match kind {
+                Some(DevKind::Spurious(p)) => en.len() + p as usize,
                 Some(DevKind::Swap(k)) => {
                     assert!((k as usize) < en.len(), "replay divergence: swap index {k} of {} at step {step}", en.len());
                     k as usize
@@ -122,6 +129,9 @@ pub fn options(info: &StepInfo) -> Vec<DevKind> {
             v.push(DevKind::Starve(info.enabled[k]));
         }
     }
+    for p in &info.idle {
+        v.push(DevKind::Spurious(*p));
+    }
     v
 }
 
@@ -147,6 +157,8 @@ pub struct Explorer<'a, T> {
     pub budget: &'a crate::util::Budget,
     pub capped: std::sync::atomic::AtomicBool,
     pub max_failures: usize,
+    /// also enumerate spurious polls of idle parties as deviations
+    pub spurious: bool,
 }
 
 impl<'a, T: Send + 'static> Explorer<'a, T> {
@@ -181,7 +193,7 @@ impl<'a, T: Send + 'static> Explorer<'a, T> {
                     }
                 }
             }
-            for kind in options(info) {
+            for kind in options(info).into_iter().filter(|k| self.spurious || !matches!(k, DevKind::Spurious(_))) {
                 let mut d = devs.to_vec();
                 d.push(Dev { step, kind });
                 out_children.push(d);
